@@ -130,6 +130,11 @@ fn check_use_lines(set: &ModuleSet, mods: &[Module], origin: &str, rep: &mut Rep
         }
         for (from, syms) in &by_from {
             let got: BTreeSet<String> = syms.iter().cloned().collect();
+            if *from == rust_mod_name(&m.name) {
+                // a module never imports from itself: the symbol is defined in this very `mod` (rustc E0255)
+                rep.violations.push(Violation { sig: "c12|use-lines|use-of-the-module-itself".into(), what: format!("module {}: use lines {uses:?} import {got:?} from the module itself [{origin}]", m.name), replay: json!({"origin": origin}) });
+                continue;
+            }
             if got.len() != syms.len() {
                 rep.violations.push(Violation { sig: "c12|use-lines|symbol-imported-twice".into(), what: format!("module {}: use lines {uses:?} import a symbol of `{from}` twice [{origin}]", m.name), replay: json!({"origin": origin}) });
             }
